@@ -183,7 +183,11 @@ def yieldTriplets (R : Registry) (s : String) (cs : Bool) : List (String × Stri
           | some d => [(pf.2.name, d.name, sf.2)]
           | none => []
         else
-          ((R.casei.find? (lowerStr R.lower (String.ofList name))).getD []).filterMap fun real =>
+          let nm := String.ofList name
+          let reals := (R.casei.find? (lowerStr R.lower nm)).getD []
+          -- (F5 repair) the exactly spelled unit wins, other candidates in sorted order
+          let reals := if reals.contains nm then [nm] else reals.mergeSort (fun a b => decide (a ≤ b))
+          reals.filterMap fun real =>
             (R.units.find? real).map fun d => (pf.2.name, d.name, sf.2)
       else []
 
